@@ -4,6 +4,8 @@ import (
 	"fmt"
 	"go/types"
 	"os"
+	"runtime/pprof"
+	"time"
 )
 
 func usage() {
@@ -14,9 +16,22 @@ func usage() {
 	os.Exit(2)
 }
 
+var profStop = func() {}
+
 func main() {
 	if len(os.Args) < 2 {
 		usage()
+	}
+	if pf := os.Getenv("GOVC_PROF"); pf != "" {
+		// development aid: CPU profile of the generator itself
+		if f, err := os.Create(pf); err == nil {
+			_ = pprof.StartCPUProfile(f)
+			go func() {
+				time.Sleep(600 * time.Second)
+				pprof.StopCPUProfile()
+			}()
+			profStop = func() { pprof.StopCPUProfile(); f.Close() }
+		}
 	}
 	switch os.Args[1] {
 	case "ssa":
@@ -60,7 +75,9 @@ func main() {
 	case "mutants":
 		os.Exit(cmdMutants(os.Args[2:]))
 	case "check":
-		os.Exit(cmdCheck(os.Args[2:]))
+		rc := cmdCheck(os.Args[2:])
+		profStop()
+		os.Exit(rc)
 	default:
 		usage()
 	}
